@@ -16,6 +16,60 @@
 #include <time.h>
 using vt::json;
 
+#include <sys/wait.h>
+#include <sys/resource.h>
+// ---- process isolation: every run executes in a forked child (the parent stays single-threaded and
+// never creates an RNG, so the child is equivalent to a fresh process that calls RNG::setSeed first).
+// A planner that corrupts memory, crashes or hangs cannot influence any other run; the parent turns an
+// abnormal end into a Crash / Hang event that names the run.
+static void runIsolated(const json &what, vt::Trace &tr, const std::function<void()> &body, long cpuLimitS, long wallLimitS)
+{
+    tr.flush();
+    fflush(stdout);
+    pid_t pid = fork();
+    if (pid == 0)
+    {
+        rlimit rl{(rlim_t)cpuLimitS, (rlim_t)cpuLimitS + 5};
+        setrlimit(RLIMIT_CPU, &rl);
+        // the parent reports an abnormal end (one event, naming the run)
+        for (int sig : {SIGSEGV, SIGABRT, SIGFPE, SIGBUS})
+            signal(sig, SIG_DFL);
+        std::set_terminate([] { abort(); });
+        body();
+        tr.flush();
+        fflush(stdout);
+        _exit(0);
+    }
+    int status = 0;
+    long waited = 0;
+    bool killedByUs = false;
+    for (;;)
+    {
+        pid_t r = waitpid(pid, &status, WNOHANG);
+        if (r == pid)
+            break;
+        usleep(20000);
+        waited += 20;
+        if (waited > wallLimitS * 1000L && !killedByUs)
+        {
+            kill(pid, SIGKILL);
+            killedByUs = true;
+        }
+    }
+    if (WIFEXITED(status) && WEXITSTATUS(status) == 0)
+        return;
+    json ev = what;
+    bool hang = killedByUs || (WIFSIGNALED(status) && (WTERMSIG(status) == SIGXCPU || WTERMSIG(status) == SIGKILL));
+    ev["e"] = hang ? "Hang" : "Crash";
+    if (!hang)
+        ev["what"] = WIFSIGNALED(status) ? (WTERMSIG(status) == SIGSEGV ? "SIGSEGV" : WTERMSIG(status) == SIGABRT ? "SIGABRT" :
+                                                                                  "signal " + std::to_string(WTERMSIG(status))) :
+                                           "exit " + std::to_string(WEXITSTATUS(status));
+    tr.emit(ev);
+    tr.flush();
+    std::cout << (hang ? "HANG " : "CRASH ") << ev.dump() << std::endl;
+}
+
 // ---- watchdog: a run that burns more than the CPU limit (or sleeps past the wall limit) is a
 // hang; it becomes a {"e":"Hang"} event (which the contract never accepts) and the process exits
 // with 75 so that the driver can resume behind it.
@@ -801,7 +855,6 @@ int main(int argc, char **argv)
         int shard = atoi(argv[4]), nshards = atoi(argv[5]);
         long skip = argc > 6 ? atol(argv[6]) : 0;  // resume: number of runs of this shard already done
         vt::Trace tr(argv[3], skip > 0);
-        startWatchdog(60000, 900000);
         long n = 0;
         for (std::size_t i = 0; i < jobs.size(); ++i)
         {
@@ -826,11 +879,7 @@ int main(int argc, char **argv)
                           {"obst", cs["obst"]}, {"start", cs["start"]}, {"goal", cs["goal"]}, {"thr", rs.thr},
                           {"range", rs.range}, {"budget", rs.budget}, {"seed", rs.seed}, {"idx", n - 1}};
                 std::cout << "RUN " << (n - 1) << std::endl;
-                {
-                    RunGuard g(what);
-                    tr.emit(runOne(reg, cs, rs));
-                }
-                tr.flush();
+                runIsolated(what, tr, [&] { tr.emit(runOne(reg, cs, rs)); }, 60, 900);
             }
         }
         std::cout << "RECORDED " << n << std::endl;
@@ -842,7 +891,6 @@ int main(int argc, char **argv)
         int shard = atoi(argv[4]), nshards = atoi(argv[5]);
         long skip = argc > 6 ? atol(argv[6]) : 0;
         vt::Trace tr(argv[3], skip > 0);
-        startWatchdog(40000, 900000);
         long n = 0;
         for (std::size_t i = 0; i < jobs.size(); ++i)
         {
@@ -853,11 +901,7 @@ int main(int argc, char **argv)
             const json &job = jobs[i];
             json what{{"planner", job["planner"]}, {"job", job.value("id", 0)}, {"idx", n - 1}};
             std::cout << "RUN " << (n - 1) << std::endl;
-            {
-                RunGuard g(what);
-                runLifecycle(reg, job, tr);
-            }
-            tr.flush();
+            runIsolated(what, tr, [&] { runLifecycle(reg, job, tr); }, 40, 900);
         }
         std::cout << "RECORDED " << n << std::endl;
         return 0;
@@ -868,7 +912,7 @@ int main(int argc, char **argv)
         int shard = atoi(argv[4]), nshards = atoi(argv[5]);
         long skip = argc > 6 ? atol(argv[6]) : 0;
         vt::Trace tr(argv[3], skip > 0);
-        startWatchdog(60000, 900000);
+        
         long n = 0;
         for (std::size_t i = 0; i < jobs.size(); ++i)
         {
@@ -879,11 +923,7 @@ int main(int argc, char **argv)
             const json &job = jobs[i];
             json what{{"planner", job["planner"]}, {"objective", job["objective"]}, {"job", job.value("id", 0)}, {"idx", n - 1}};
             std::cout << "RUN " << (n - 1) << std::endl;
-            {
-                RunGuard g(what);
-                runCost(reg, job, tr);
-            }
-            tr.flush();
+            runIsolated(what, tr, [&] { runCost(reg, job, tr); }, 60, 900);
         }
         std::cout << "RECORDED " << n << std::endl;
         return 0;
